@@ -11,11 +11,11 @@
 Every buffer goes through the same judge: an independent reference sweep (gen/dalvik.decode + payload layout from the
 specification) decides whether the buffer is a valid stream (oracle (a)) or not (oracle (b)).
 """
-import itertools
 import struct
+import sys
 
 from mc.core import Acc, h8
-from mc.budget import run_with_budget
+from mc.budget import BudgetExceeded, TOOL
 from gen import dalvik as D
 
 PROPERTY = "C02"
@@ -134,12 +134,66 @@ class StubCM:
         return False
 
 
+class BudgetSession:
+    """mc/budget.py's event budget (PY_START + JUMP + BRANCH events, BudgetExceeded) with the instrumentation switched
+    on once per shard instead of once per case: re-instrumenting for each of ~3 M buffers costs far more than the
+    sweeps themselves.  Same events, same exception, same verdicts; only the counter is reset per case."""
+    OFF = 1 << 62
+
+    def __init__(self):
+        mon = sys.monitoring
+        ev = mon.events
+        try:
+            mon.use_tool_id(TOOL, "verif-budget")
+        except ValueError:
+            mon.free_tool_id(TOOL)
+            mon.use_tool_id(TOOL, "verif-budget")
+        self.count = 0
+        self.limit = self.OFF
+        for e in (ev.PY_START, ev.JUMP, ev.BRANCH):
+            mon.register_callback(TOOL, e, self._tick)
+        mon.set_events(TOOL, ev.PY_START | ev.JUMP | ev.BRANCH)
+
+    def _tick(self, *_a):
+        self.count += 1
+        if self.count > self.limit:
+            self.limit = self.OFF          # disarm before raising: handlers in the code under test must not re-trigger
+            raise BudgetExceeded()
+
+    def run(self, fn, budget):
+        """-> (status, value, events) like mc.budget.run_with_budget"""
+        self.count = 0
+        self.limit = budget
+        try:
+            r = fn()
+            return "ok", r, self.count
+        except BudgetExceeded:
+            return "budget", None, self.count
+        except Exception as e:     # noqa
+            return "exc", e, self.count
+        finally:
+            self.limit = self.OFF
+
+    def close(self):
+        mon = sys.monitoring
+        ev = mon.events
+        mon.set_events(TOOL, 0)
+        for e in (ev.PY_START, ev.JUMP, ev.BRANCH):
+            mon.register_callback(TOOL, e, None)
+        mon.free_tool_id(TOOL)
+
+
 class Env:
     def __init__(self):
         from androguard.core import dex
         self.dex = dex
         self.cm = StubCM(dex)
         self.Invalid = dex.InvalidInstruction
+        self.budget = BudgetSession()
+        self.max_events = 0
+
+    def close(self):
+        self.budget.close()
 
 
 def _safe(f):
@@ -163,7 +217,9 @@ def judge(env, buf, size):
         for ins in dex.LinearSweepAlgorithm.get_instructions(env.cm, size, buf, 0):
             got.append(ins)
 
-    status, val, events = run_with_budget(sweep, BUDGET0 + BUDGET1 * n)
+    status, val, events = env.budget.run(sweep, BUDGET0 + BUDGET1 * n)
+    if events - BUDGET1 * n // 8 > env.max_events:
+        env.max_events = events - BUDGET1 * n // 8
     v = []
     # ---- oracle (b): holds for every buffer
     off = 0
@@ -463,12 +519,14 @@ def run_shard(ctx, shard):
     for o in acc._oc:
         acc.outcomes.add(h8(o))
     del acc._oc
+    env.close()
     return acc
 
 
 def replay(ctx, w):
     env = Env()
     _, viols = judge(env, bytes.fromhex(w["buf"]), w["size"])
+    env.close()
     if viols:
         return "\n".join("%s: %s" % kv for kv in viols)
     return None
@@ -483,5 +541,17 @@ def finalize(ctx, acc):
         acc.harness_error("arbitrary buffers explored %r" % acc.extra)
     if not acc.extra.get("fault_substitutions") or not acc.extra.get("fault_truncations"):
         acc.harness_error("fault half empty")
+    # the budget mechanism itself must be live: a loop that never ends has to be cut
+    b = BudgetSession()
+
+    def forever():
+        i = 0
+        while True:
+            i += 1
+    st, _, ev = b.run(forever, 5000)
+    st2, _, ev2 = b.run(lambda: sum(range(10)), 5000)
+    b.close()
+    if st != "budget" or st2 != "ok":
+        acc.harness_error("budget self-test failed: endless loop -> %r after %d events, trivial call -> %r" % (st, ev, st2))
     if len(acc.outcomes) < 40:
         acc.harness_error("vacuous: only %d distinct (status, #instructions, input class) outcomes" % len(acc.outcomes))
